@@ -36,12 +36,12 @@ def run(ck):
     seqs = [e["calls"] for e in r.emitted]
     ck.exhaustive = True
     ck.cat("ordered_pairs", len(seqs))
-    L = 8 if q else 20
+    L = 8 if q else 30
     r = ck.mc("Session", "CONSTANTS MenuSize = %d MaxLen = %d\nINIT Init\nNEXT Next\nINVARIANT Emit\n" % (n, L), "GEN simulated long call histories",
-              simulate="num=%d" % (3 if q else 40), depth=L + 1, dedupe_emits=True, workers=8)
+              simulate="num=%d" % (10 if q else 60), depth=L + 1, dedupe_emits=True, workers=8)
     longs = sorted((e["calls"] for e in r.emitted), key=json.dumps)
     ck.rng.shuffle(longs)
-    longs = longs[:250 if q else 5000]
+    longs = longs[:250 if q else 8000]
     ck.cat("long_histories", len(longs))
     seqs += longs
     # each history runs in its own freshly forked process; the parent has only IMPORTED prtpy (module initialisation), never called it
